@@ -470,3 +470,135 @@ class _NewWallet:
 for _via in ("new_wallet", "from_entropy_bits"):
     for _w in (12, 15, 18, 21, 24, 0, 13, 25):
         CONTRACTS.append(type(f"Fresh_{_via}_{_w}", (_NewWallet,), dict(words=_w, via=_via))())
+
+
+# ------------------------------------------------------------------------------------------ C13: address generator
+from .common import spec_prv_ckd_terms, spec_pub_ckd_terms      # noqa: E402
+from pyvc.engine import Dec                                      # noqa: E402
+
+
+class GenLoop:
+    """`while True: child = node.ckd(index); adder = yield str(child), addr(child); index += adder or 1`
+    step relation checked for every index: yields the child AT index; index' = index + (sent or 1)"""
+    name = "address_generator.loop"
+
+    def __init__(self, owner):
+        self.owner = owner
+
+    def at_entry(self, ctx, frame, it):
+        ctx.side_check("address_generator.first_index_is_0", eq(frame.env["index"], 0))
+        ctx.ghost = getattr(ctx, "ghost", {})
+        g = NS()
+        ctx.ghost[self.name] = g
+        return g
+
+    def invariant(self, ctx, frame, g):
+        return frame.env["index"] >= 0
+
+    def havoc(self, ctx, frame, g):
+        k = ctx.loop_counter
+        g.index = z3.Int(f"gen_index!{k}")
+        frame.env["index"] = g.index
+        frame.env.pop("child", None)
+        frame.env.pop("adder", None)
+        g.yields = []
+        ctx.opts["_gen_ghost"] = g
+
+    def check_step(self, ctx, frame, g, I):
+        pass
+
+
+def _yield_hook(frame, value):
+    ctx = frame.ctx
+    g = ctx.opts.get("_gen_ghost")
+    sent = ctx.opts["_sent"]
+    g.yields.append(value)
+    return sent
+
+
+class _AddressGenerator:
+    """C13: the address generator yields (path, address) of consecutive children, starting at index 0, and
+    skips ahead by the number sent to it; each yielded pair belongs to the child AT the current index"""
+    target = "btc_hd_wallet.base_wallet.BaseWallet.address_generator"
+    props = ("C13",)
+    private = True
+
+    def __init__(self):
+        self.loops = {0: GenLoop(self)}
+        self.opts = dict(yield_hook=_yield_hook)
+
+    def inputs(self, B):
+        if B.concrete:
+            raise Undecided("generator step contract has no single-call replay (covered by the bounded history check)")
+        w, wn = sym_wallet(B, private=self.private)
+        mk = sym_prv_node if self.private else sym_pub_node
+        nref, nn = mk(B, "node", with_parent=False, depth_hi=200)
+        sc = B.case("sent", 3)
+        sent = [None, 0, B.int("sent_value", 1, 2 ** 31)][sc]
+        B.ctx.opts["_sent"] = sent
+        return [w, nref], {}, NS(w=wn, n=nn, sent=sent)
+
+    def modifies(self, c, I):
+        return {(I.n.children.oid, "items")}
+
+    def post(self, c, I, out):
+        # reached only through PathCut'ed step paths; obligations are produced by post_step below
+        return ()
+
+
+def _gen_step_check(self, ctx, frame, g):
+    """called after the loop body (via variant hook): relation between the step's observations"""
+    return None
+
+
+class GenLoopChecked(GenLoop):
+    variant = None
+
+    def after_body(self, ctx, frame, g):
+        I = self.owner._I
+        n = I.n
+        y = g.yields[0]
+        ctx.side_check("address_generator.one_yield_per_step", len(g.yields) == 1)
+        if n.private:
+            IL, IR, ki = spec_prv_ckd_terms(n.k, n.cc, g.index)
+            pt = U.ecmul(ki)
+        else:
+            IL, IR, Ki = spec_pub_ckd_terms(n.key, n.pt, n.cc, g.index)
+            pt = Ki
+        mark = "m" if n.private else "M"
+        okshape = isinstance(y, tuple) and len(y) == 2
+        ctx.side_check("address_generator.yields_pair", okshape)
+        if okshape:
+            if not ctx.feasible(g.index >= HARD):
+                idx_txt = [Dec(g.index)]
+            elif not ctx.feasible(g.index < HARD):
+                idx_txt = [Dec(g.index - HARD), "'"]
+            else:
+                idx_txt = None
+            ctx.side_check("address_generator.path_of_child_at_index", eq(y[0], mk_str([mark + "/"] + idx_txt)) if idx_txt else False)
+            ctx.side_check("address_generator.address_of_child_at_index", eq(y[1], spec_address("p2wpkh", pt, I.w.testnet)))
+        sent = I.sent
+        step = 1 if (sent is None or (not is_sym(sent) and sent == 0)) else sent
+        ctx.side_check("address_generator.next_index_is_index_plus_sent_or_1", eq(frame.env["index"], g.index + step))
+        return None
+
+
+class AddressGeneratorPrv(_AddressGenerator):
+    private = True
+
+    def __init__(self):
+        super().__init__()
+        self.loops = {0: GenLoopChecked(self)}
+
+    def inputs(self, B):
+        r = super().inputs(B)
+        self._I = r[2]
+        return r
+
+
+class AddressGeneratorPub(AddressGeneratorPrv):
+    private = False
+
+
+CONTRACTS.append(AddressGeneratorPrv())
+CONTRACTS.append(AddressGeneratorPub())
